@@ -72,7 +72,14 @@ func (s Stage) String() string {
 		}
 		return "| " + s.Label + " " + s.Op + " " + quote(s.Val)
 	case "json":
+		if s.Label == "" {
+			return "| json" // every top-level key; evaluated by the in-process engine
+		}
 		return "| json " + s.Label + "=" + quote(s.Val)
+	case "logfmt":
+		return "| logfmt"
+	case "line_format":
+		return "| line_format " + quote(s.Val)
 	case "regexp":
 		return "| regexp " + quote(s.Val)
 	case "unwrap":
